@@ -1,7 +1,7 @@
 import XdslProofs.Lemmas.ArithFloatLogic
 import XdslModel.Sem
 /-!
-# C15 (extension) — decision logic of the float kernels `minimumf`, `maximumf`, `cmpf`
+# C15 (extension) — decision logic of the float kernels `minimumf`, `maximumf`, `cmpf`, `addf`, `subf`, `mulf`
 
 The IEEE operations themselves are parameters (`FloatOps`, laws `FloatLaws`); what is proved is that
 the *branching* of `ArithFunctions.run_minimumf/run_maximumf/run_cmpf` (hand model
@@ -126,5 +126,61 @@ example : FloatLaws toyOps := toyLaws
 example : run_minimumf toyOps .pz .nz = .nz ∧ run_maximumf toyOps .nz .pz = .pz
     ∧ run_minimumf toyOps .p1 .nan = .nan ∧ run_cmpf toyOps 13 .nan .p1 = some true
     ∧ run_cmpf toyOps 1 .nz .pz = some true := by decide
+
+/-! ### `addf`, `subf`, `mulf`: the result is rounded once to the result type
+
+`rne ty x` is IEEE-754 roundTiesToEven of the binary64 value `x` into the format of `ty` (a
+parameter, like the operations themselves; `RoundLaws` says how the packing primitives relate to it).
+The statements: each kernel returns `rne ty` of the binary64 result of its operation — for a type
+that binary64 does not exceed that is the binary64 result itself.  (That rounding the binary64
+result equals rounding the exact result — innocuous double rounding for +, −, × when the target has
+at most 25 significant bits — is a fact of IEEE arithmetic outside this model; the harness compares
+with Lean's native `Float32` operations and an exact-integer rounding reference.) -/
+
+variable {Ty : Type}
+
+/-- `_round_to_float_type value ty = rne ty value` -/
+theorem round_to_float_type_spec (R : RoundOps F Ty) (rne : Ty → F → F) (L : RoundLaws R rne)
+    (value : F) (ty : Ty) : round_to_float_type R value ty = rne ty value := by
+  unfold round_to_float_type
+  cases hn : R.narrow ty with
+  | false => simp [L.wide ty value hn]
+  | true =>
+    cases hp : R.repack ty value with
+    | none => simp [L.repack_none ty value hn hp]
+    | some r => simp [L.repack_some ty value r hn hp]
+
+/-- `arith.addf`: the binary64 sum rounded to the result type. -/
+theorem run_addf_rounds (R : RoundOps F Ty) (rne : Ty → F → F) (L : RoundLaws R rne) (ty : Ty) (a b : F) :
+    run_addf R ty a b = rne ty (R.add a b) := round_to_float_type_spec R rne L _ ty
+
+/-- `arith.subf`: the binary64 difference rounded to the result type. -/
+theorem run_subf_rounds (R : RoundOps F Ty) (rne : Ty → F → F) (L : RoundLaws R rne) (ty : Ty) (a b : F) :
+    run_subf R ty a b = rne ty (R.sub a b) := round_to_float_type_spec R rne L _ ty
+
+/-- `arith.mulf`: the binary64 product rounded to the result type. -/
+theorem run_mulf_rounds (R : RoundOps F Ty) (rne : Ty → F → F) (L : RoundLaws R rne) (ty : Ty) (a b : F) :
+    run_mulf R ty a b = rne ty (R.mul a b) := round_to_float_type_spec R rne L _ ty
+
+/-- on a type that is not narrower than binary64 (f64; also the index/integer-typed operands of the
+pinned tests) the kernels return the Python result unchanged. -/
+theorem run_addf_wide (R : RoundOps F Ty) (ty : Ty) (a b : F) (h : R.narrow ty = false) :
+    run_addf R ty a b = R.add a b ∧ run_subf R ty a b = R.sub a b ∧ run_mulf R ty a b = R.mul a b := by
+  simp [run_addf, run_subf, run_mulf, round_to_float_type, h]
+
+/-- the result of a kernel on a narrow type is a value of that type or the overflow infinity: it is
+never the unrounded binary64 result unless that is what re-packing returns (the repaired defect:
+`addf 1.0, 16777216.0 : f32` returned 16777217.0). -/
+theorem run_addf_narrow (R : RoundOps F Ty) (ty : Ty) (a b : F) (h : R.narrow ty = true) :
+    R.repack ty (R.add a b) = some (run_addf R ty a b)
+      ∨ (R.repack ty (R.add a b) = none ∧ run_addf R ty a b = R.copysignInf (R.add a b)) := by
+  simp only [run_addf, round_to_float_type, h, if_true]
+  cases R.repack ty (R.add a b) <;> simp
+
+/-- non-vacuity: the laws are satisfiable, and on the toy instance a narrow sum beyond the range
+overflows to the signed "infinity", an in-range one is kept, a wide one is untouched. -/
+example : RoundLaws toyRound toyRne := toyRoundLaws
+example : run_addf toyRound true 2 2 = 100 ∧ run_subf toyRound true (-2) 2 = -100
+    ∧ run_mulf toyRound true 1 2 = 2 ∧ run_addf toyRound false 2 2 = 4 := by decide
 
 end Xdsl.C15
